@@ -9,6 +9,9 @@ NOTE_COMMON = ("Trusted: go/ssa lowering (x/tools v0.29.0), the symgo executor's
                "in the evidence file (coverage.bounds / coverage.outside_claim) and DESIGN.md. unknown/timeout/unsupported are reported "
                "as INCONCLUSIVE, never as success or violation. ")
 claimed = {
+ 'C18': dict(cat='model_checking', ref='5/C18',
+   text="The three UE policy decoders run symbolically on every byte string up to 10 (13) octets (no panic, terminate). Command/complete/reject messages and nested lists built through the API with symbolic contents are encoded by the real code and decoded back; lengths are proved to be the ones computed from content and all fields equal. SetPlmnDigit output for every MCC/MNC is proved equal to nasConvert.PlmnIDToNas of the same digits (TS 24.008 digit order), and the parsers are proved to read it back.",
+   note="Shapes up to 2 sub-lists x 2 instructions x 2 parts x 3 content octets."),
  'C15': dict(cat='model_checking', ref='5/C15',
    text="Real QoS rule / flow description parsers executed on every byte string up to 8 (11) octets (no panic, terminates; every unknown parameter identifier and component type proved to be an error). Shape-directed symbolic lists (every operation, 0/1/2/15 filters, each of the 18 component kinds alone and all in one filter; every parameter kind) are serialised by the real code, proved byte-identical to an encoder written from TS 24.501 9.11.4.12/13, parsed back by the real code and proved field-wise equal.",
    note="Interfaces are dispatched on their concrete type per path."),
